@@ -191,6 +191,51 @@ pub fn run(rep: &mut Report, thorough: bool) {
         &mut rep.sink,
     );
     rep.stage("udp-ports", "UDP payloads x {v4,v6} x 4 port sweeps x 65536 points", product(&dims), t0);
+    // reply-size classes: DNS queries whose answers grow from a few bytes to several kilobytes
+    // (n questions for the root name, n = 1..150; k questions for 249-byte names, k = 1..6): the
+    // same query over IPv4 / IPv6 and from / to other ports gets the same canonical answer
+    {
+        let t0 = std::time::Instant::now();
+        let long: Vec<Vec<u8>> = vec![vec![b'a'; 63], vec![b'b'; 63], vec![b'c'; 63], vec![b'd'; 55]];
+        let nq = 150u64 + 6;
+        let query = |k: u64| -> Vec<u8> {
+            if k < 150 {
+                let qs: Vec<(Vec<Vec<u8>>, u16, u16)> = (0..=k).map(|_| (vec![], 1u16, 1u16)).collect();
+                crate::appdns::build_query(0x4444, 0x0100, &qs)
+            } else {
+                let qs: Vec<(Vec<Vec<u8>>, u16, u16)> = (0..=(k - 150)).map(|_| (long.clone(), 1u16, 1u16)).collect();
+                crate::appdns::build_query(0x4445, 0x0100, &qs)
+            }
+        };
+        let ctxs = [flow4(40000, 80), flow4(1, 65535), flow6(40000, 80), flow6(53, 53), flow4(53, 53), flow6(65535, 1)];
+        let opts = RunOpts::new("reply-size-classes");
+        engine::run(
+            &cfg,
+            nq,
+            &opts,
+            |i| ctxs.iter().map(|f| Cmd::Frame(f.udp(&query(i)))).collect(),
+            |it: &Item, sk: &mut Sink| {
+                let q = query(it.idx);
+                let forms: Vec<String> = ctxs.iter().enumerate().map(|(k, f)| canon_checked("dns-sized", &q, it.outs[k].reply.as_deref(), &ctx_of(f, false))).collect();
+                for k in 1..forms.len() {
+                    if !same(&forms[k], &forms[0]) {
+                        sk.violation(Violation {
+                            prop: "C19".into(),
+                            key: "port-or-version-dependence:udp:dns-sized".into(),
+                            what: format!("DNS query #{} ({} bytes) {}:{} -> :{} : canonical reply {} differs from the one for 40000 -> 80 over IPv4 {}", it.idx, q.len(), ctxs[k].cip, ctxs[k].cport, ctxs[k].sport, &forms[k][..forms[k].len().min(80)], &forms[0][..forms[0].len().min(80)]),
+                            cfg: cfgc.clone(),
+                            cmds: vec![it.cmds[0].clone(), it.cmds[k].clone()],
+                            idx: it.idx,
+                            stage: "reply-size-classes".into(),
+                        });
+                        break;
+                    }
+                }
+            },
+            &mut rep.sink,
+        );
+        rep.stage("reply-size-classes", "DNS queries with 1..150 root-name questions and 1..6 questions for 249-byte names x 6 contexts (IPv4 / IPv6, 3 port pairs): all canonical answers equal", nq * 6, t0);
+    }
     // TCP sweeps: learn cookies for all flows first (SYN sweep), then data on fresh tables
     let tcp_sel: Vec<&Payload> = sel.iter().filter(|p| p.via != Via::UdpOnly).cloned().collect();
     let tsweeps: u64 = if thorough { 4 } else { 2 };
